@@ -98,6 +98,11 @@
 # include <psapi.h>     // for PROCESS_MEMORY_COUNTERS (yes, this include has to be down here)
 #endif
 
+#ifdef MUSCLE_VERIF_HOOKS
+# include "support/MuscleVerifHooks.h"
+namespace muscle_verif {Hooks * g_hooks = NULL;}
+#endif
+
 namespace muscle {
 
 #ifdef MUSCLE_COUNT_STRING_COPY_OPERATIONS
@@ -1233,7 +1238,11 @@ static uint64 GetRunTime64Aux()
 }
 
 static int64 _perProcessRunTimeOffset = 0;
+#ifdef MUSCLE_VERIF_HOOKS
+uint64 GetRunTime64() {uint64_t vt; if ((muscle_verif::g_hooks)&&(muscle_verif::g_hooks->VirtualTime(&vt))) return vt; return GetRunTime64Aux()+_perProcessRunTimeOffset;}
+#else
 uint64 GetRunTime64() {return GetRunTime64Aux()+_perProcessRunTimeOffset;}
+#endif
 void SetPerProcessRunTime64Offset(int64 offset) {_perProcessRunTimeOffset = offset;}
 int64 GetPerProcessRunTime64Offset() {return _perProcessRunTimeOffset;}
 
